@@ -66,6 +66,26 @@ pub fn parse_out(out: &Value) -> Prog {
     Prog { toks, nodes }
 }
 
+/// Literal relabelling: the k-th decimal literal spelled `1` becomes `k` (k = 1, 2, ...), and the
+/// `IntLit` node around it gets that value.  The result is a program of the same derivation machine
+/// with `IntLits = {1, 2, ...}`; with one spelling for all literals a formatter or parser that
+/// prints / reads a literal from the wrong place would go unnoticed.
+pub fn distinct_literals(p: &mut Prog) {
+    let mut k = 0usize;
+    for i in 0..p.toks.len() {
+        if p.toks[i].kind == "Int" && p.toks[i].spell == "1" {
+            k += 1;
+            let s = k.to_string();
+            for n in p.nodes.iter_mut() {
+                if n.kind == "IntLit" && n.first == i && n.last == i && n.attr == "1" {
+                    n.attr = s.clone();
+                }
+            }
+            p.toks[i].spell = s;
+        }
+    }
+}
+
 /// What stands in the gap before a terminal (and after the last one).
 #[derive(Clone, Debug, Default)]
 pub struct Gap {
